@@ -28,6 +28,7 @@ package kernel
 //@   ensures [owned-not-requeued] forall h crypto.Hash :: {Queued(chain.node.persistStore, h)} Queued(chain.node.persistStore, h) != old(Queued(chain.node.persistStore, h)) ==>
 //@       !InList32(owned, h) && !Finalized(chain.node.persistStore, h)
 //@   ensures [monotone] forall id mathint :: {QueuedId(chain.node.persistStore, id)} QueuedId(chain.node.persistStore, id) != old(QueuedId(chain.node.persistStore, id)) ==> QueuedId(chain.node.persistStore, id) == 1
+//@   ensures [errors-grow] StoreErrors(chain.node.persistStore) >= old(StoreErrors(chain.node.persistStore))
 //@   hint at "chain.CosiAggregators = make(map[crypto.Hash]*CosiAggregator)" [all-collected] forall k crypto.Hash :: {has(chain.CosiAggregators, k)} has(chain.CosiAggregators, k) ==>
 //@       Collected(owned, retry, chain.CosiAggregators[k].Snapshot)
 //@   ensures [maps-empty] chain.CosiAggregators != nil && chain.CosiVerifiers != nil && len(chain.CosiAggregators) == 0 && len(chain.CosiVerifiers) == 0 &&
